@@ -12,6 +12,7 @@ import HealSparse.Props.C01
 import HealSparse.Props.C02
 import HealSparse.Props.C03
 import HealSparse.Props.C04
+import HealSparse.Lemmas.ApiCat
 namespace HS
 namespace C18
 
@@ -147,5 +148,493 @@ example : (catFiles (V := Int) ⟨2, 1⟩ ⟨-1, fun x => x != -1⟩
     [⟨⟨4, 0⟩, ⟨#[1, -1, -2, -3], #[-1, 5]⟩⟩, ⟨⟨1, 2⟩, ⟨#[4], #[-1, -1, -1, -1, 8, -1, 7, -1]⟩⟩]
     true false (fun a _ => a)).isNone = true := by decide +kernel
 
+/-! ## API level: `apiCat` on files written by `apiWrite` -/
+
+section api
+open ApiCat WFApi WFFiles
+
+/-- under pairwise disjointness at most one map is valid at a pixel: the list of valid values
+    is the value of the map `find?` finds -/
+theorem vals_of_disjoint {so : Nat} {ins : Ins} (hd : ApiCat.Disjoint so ins) (p : Nat)
+    (hp : p < 12 * 4 ^ so) :
+    vals ins p = match ins.find? (fun x => x.1.vc.valid (x.1.abs p)) with
+      | some x => [x.1.abs p]
+      | none => [] := by
+  induction ins with
+  | nil => rfl
+  | cons x xs ih =>
+    unfold ApiCat.Disjoint at hd
+    rw [List.pairwise_cons] at hd
+    have ih' := ih hd.2
+    unfold vals at ih' ⊢
+    rw [List.filterMap_cons, List.find?_cons]
+    cases hv : x.1.vc.valid (x.1.abs p) with
+    | true =>
+      simp only [if_true]
+      congr 1
+      rw [List.filterMap_eq_nil_iff]
+      intro y hy
+      have := hd.1 y hy p hp
+      cases hvy : y.1.vc.valid (y.1.abs p) with
+      | false => simp
+      | true => exact absurd ⟨hv, hvy⟩ this
+    | false =>
+      simp only [Bool.false_eq_true, if_false]
+      exact ih'
+
+
+/-- **the region of known finding F50** (recorded, not repaired): wide-mask inputs, output
+    coverage COARSER than the first file's, and a first file with fewer storage rows than one
+    output block.  The library reads the dtype stub of the first file with the OUTPUT block
+    size (`row_range=[0, nfine_out·width]`) and `np.reshape` raises ValueError; the model's
+    `apiCat` has no such check and succeeds (`inF50_model_succeeds`).  The union theorem is
+    therefore claimed outside this region only. -/
+def inF50 (files : List FileObj) (covordOut : Option Nat) : Prop :=
+  match files with
+  | [] => False
+  | f0 :: _ =>
+    f0.wwidth.isSome = true ∧ covordOut.getD f0.covord < f0.covord ∧
+    f0.file.data.size < (cfgOf (covordOut.getD f0.covord) f0.spord).nfine
+
+instance (files : List FileObj) (covordOut : Option Nat) : Decidable (inF50 files covordOut) := by
+  unfold inF50; split <;> infer_instance
+
+variable {kind : Kind} {sent : Val} {so : Nat} {m₀ : MapObj} {md₀ : List (String × String)}
+  {rest : Ins}
+
+/-- **C18 (API), errors — any files**: re-export of `ApiCat.apiCat_error_iff` (source order:
+    `or_overlap` without `check_overlap`; empty list; another `nside_sparse`; unknown kind of the
+    FIRST file; output coverage finer than `nside_sparse`; the overlap error).  Kinds, dtypes and
+    sentinels of the other files are NOT compared — see `api_cat_mismatch_accepted`. -/
+theorem api_cat_error_iff (files : List FileObj) (covordOut : Option Nat) (check or_ : Bool) (e : Err) :
+    apiCat files covordOut check or_ = .error e ↔
+      (or_ = true ∧ check = false ∧ e = .runtime) ∨
+      (¬ (or_ = true ∧ check = false) ∧
+        ((files = [] ∧ e = .index) ∨
+         ∃ f0 rest, files = f0 :: rest ∧
+          (((∃ f ∈ files, f.spord ≠ f0.spord) ∧ e = .runtime) ∨
+           ((∀ f ∈ files, f.spord = f0.spord) ∧
+            ((fileKind f0 = none ∧ e = .runtime) ∨
+             ∃ kind, fileKind f0 = some kind ∧
+              ((covordOut.getD f0.covord > f0.spord ∧ e = .value) ∨
+               (covordOut.getD f0.covord ≤ f0.spord ∧ e = .runtime ∧
+                catFiles (cfgOf (covordOut.getD f0.covord) f0.spord)
+                  ⟨kind.blank f0.sentinel, kind.valid f0.sentinel⟩ (inputsOf files) check
+                  (or_ && kind.isIntegerMap) (fun a b => Val.or kind.dt a b) = none))))))) :=
+  apiCat_error_iff files covordOut check or_ e
+
+/-- **C18 (API), errors — files written from maps of one kind, sentinel and `nside_sparse`**
+    (any `nside_coverage` each): the call raises exactly
+    * RuntimeError(Warning) for `or_overlap` without `check_overlap`;
+    * ValueError for an output coverage order above the sparse order;
+    * RuntimeError when `check_overlap` is on, the `or` combination is not available
+      (`or_overlap` off, or the kind is not an integer kind: float and record maps) and two of
+      the maps are valid at a common pixel.
+    `or_overlap` asks nothing of the sentinel. -/
+theorem api_cat_written_error_iff (h : Uniform kind sent so ((m₀, md₀) :: rest)) (hft : m₀.FileTyped)
+    (covordOut : Option Nat) (check or_ : Bool) (e : Err) :
+    apiCat (filesOf ((m₀, md₀) :: rest)) covordOut check or_ = .error e ↔
+      (or_ = true ∧ check = false ∧ e = .runtime) ∨
+      (¬ (or_ = true ∧ check = false) ∧ covordOut.getD m₀.covord > so ∧ e = .value) ∨
+      (¬ (or_ = true ∧ check = false) ∧ covordOut.getD m₀.covord ≤ so ∧ check = true ∧
+        (or_ && kind.isIntegerMap) = false ∧ ¬ ApiCat.Disjoint so ((m₀, md₀) :: rest) ∧
+        e = .runtime) := by
+  by_cases h1 : or_ = true ∧ check = false
+  · rw [apiCat_written h hft, if_pos (by simp [h1.1, h1.2])]
+    constructor
+    · intro he; cases he; exact Or.inl ⟨h1.1, h1.2, rfl⟩
+    · rintro (⟨_, _, rfl⟩ | ⟨hn, _⟩ | ⟨hn, _⟩)
+      · rfl
+      · exact absurd h1 hn
+      · exact absurd h1 hn
+  · by_cases h2 : covordOut.getD m₀.covord > so
+    · rw [apiCat_written h hft, if_neg (by simpa using h1), if_pos h2]
+      constructor
+      · intro he; cases he; exact Or.inr (Or.inl ⟨h1, h2, rfl⟩)
+      · rintro (⟨a, b, _⟩ | ⟨_, _, rfl⟩ | ⟨_, hle, _⟩)
+        · exact absurd ⟨a, b⟩ h1
+        · rfl
+        · exact absurd h2 (Nat.not_lt.2 hle)
+    · have hle := Nat.not_lt.1 h2
+      rcases apiCat_sem h hft covordOut check or_ h1 hle with ⟨he, hc, ho, hnd⟩ | ⟨st, hok, hdis, _⟩
+      · rw [he]
+        constructor
+        · intro h'; cases h'; exact Or.inr (Or.inr ⟨h1, hle, hc, ho, hnd, rfl⟩)
+        · rintro (⟨a, b, _⟩ | ⟨_, hgt, _⟩ | ⟨_, _, _, _, _, rfl⟩)
+          · exact absurd ⟨a, b⟩ h1
+          · exact absurd hgt h2
+          · rfl
+      · rw [hok]
+        constructor
+        · intro h'; cases h'
+        · rintro (⟨a, b, _⟩ | ⟨_, hgt, _⟩ | ⟨_, _, hc, ho, hnd, _⟩)
+          · exact absurd ⟨a, b⟩ h1
+          · exact absurd hgt h2
+          · exact absurd (hdis hc ho) hnd
+
+/-- **C18 (API), success condition** on such files -/
+theorem api_cat_ok_iff (h : Uniform kind sent so ((m₀, md₀) :: rest)) (hft : m₀.FileTyped)
+    (covordOut : Option Nat) (check or_ : Bool) :
+    (∃ F, apiCat (filesOf ((m₀, md₀) :: rest)) covordOut check or_ = .ok F) ↔
+      ¬ (or_ = true ∧ check = false) ∧ covordOut.getD m₀.covord ≤ so ∧
+      (check = true → (or_ && kind.isIntegerMap) = false →
+        ApiCat.Disjoint so ((m₀, md₀) :: rest)) := by
+  constructor
+  · rintro ⟨F, hF⟩
+    have hne : ∀ e, apiCat (filesOf ((m₀, md₀) :: rest)) covordOut check or_ ≠ .error e := by
+      intro e he; rw [hF] at he; cases he
+    have key := fun e => (api_cat_written_error_iff h hft covordOut check or_ e).2
+    have h1 : ¬ (or_ = true ∧ check = false) :=
+      fun hc => hne .runtime (key .runtime (Or.inl ⟨hc.1, hc.2, rfl⟩))
+    have h2 : covordOut.getD m₀.covord ≤ so := by
+      apply Nat.not_lt.1
+      intro hgt
+      exact hne .value (key .value (Or.inr (Or.inl ⟨h1, hgt, rfl⟩)))
+    refine ⟨h1, h2, fun hc ho => ?_⟩
+    apply Classical.byContradiction
+    intro hnd
+    exact hne .runtime (key .runtime (Or.inr (Or.inr ⟨h1, h2, hc, ho, hnd, rfl⟩)))
+  · rintro ⟨h1, h2, h3⟩
+    rcases apiCat_sem h hft covordOut check or_ h1 h2 with ⟨_, hc, ho, hnd⟩ | ⟨st, hok, _⟩
+    · exact absurd (h3 hc ho) hnd
+    · exact ⟨_, hok⟩
+
+/-- **C18 (API), the value in general** (overlapping inputs allowed, every accepted flag
+    combination): the result file reads back as a well-formed map `r` of the output coverage
+    order, the common `nside_sparse`, kind and sentinel, holding at EVERY pixel the `stepV`-fold
+    of the values of the maps valid there, in list order, and covered exactly at the output
+    coverage pixels that contain a valid pixel of some input (NOT at every covered input
+    block: an allocated but empty block of an input leaves no trace) -/
+theorem api_cat_value (h : Uniform kind sent so ((m₀, md₀) :: rest)) (hft : m₀.FileTyped)
+    (covordOut : Option Nat) (check or_ : Bool) {F : FileObj}
+    (hF : apiCat (filesOf ((m₀, md₀) :: rest)) covordOut check or_ = .ok F) :
+    ∃ r, apiRead F none = .ok r ∧ r.covord = covordOut.getD m₀.covord ∧ r.spord = so ∧
+      r.kind = kind ∧ r.sent = sent ∧ r.cache = none ∧ r.view = none ∧ r.WF ∧
+      (∀ p, p < r.npix → r.abs p =
+        (vals ((m₀, md₀) :: rest) p).foldl
+          (stepV r.vc check (fun a b => Val.or kind.dt a b)) r.vc.sentinel) ∧
+      (∀ k, k < r.c.ncov → (covered r.c r.st k = true ↔
+        ∃ x ∈ (m₀, md₀) :: rest, ∃ p, p < r.npix ∧ p >>> r.c.shift = k ∧
+          x.1.vc.valid (x.1.abs p) = true)) := by
+  obtain ⟨h1, h2, _⟩ := (api_cat_ok_iff h hft covordOut check or_).1 ⟨F, hF⟩
+  rcases apiCat_sem h hft covordOut check or_ h1 h2 with ⟨he, _⟩ | ⟨st, hok, _, hread, hwf, habs, hcov⟩
+  · rw [he] at hF; cases hF
+  · rw [hok] at hF
+    cases hF
+    refine ⟨_, hread, rfl, rfl, rfl, rfl, rfl, rfl, hwf, ?_, ?_⟩
+    · intro p hp
+      have hp' : p < 12 * 4 ^ so := by
+        have : (outMap (covordOut.getD m₀.covord) so kind sent st).npix = 12 * 4 ^ so :=
+          WFFiles.cfgOf_npix h2
+        rw [← this]; exact hp
+      exact habs p hp'
+    · intro k hk
+      have hnp : (outMap (covordOut.getD m₀.covord) so kind sent st).npix = 12 * 4 ^ so :=
+        WFFiles.cfgOf_npix h2
+      rw [hnp]
+      exact hcov k hk
+
+
+/-- **C18 (API), the union theorem**: files written from pairwise disjoint maps (no pixel
+    valid in two of them) of one kind / sentinel / `nside_sparse` and ARBITRARY, differing
+    coverage orders, any accepted flag combination, any output coverage order `≤ nside_sparse`
+    (default: the first file's), outside the region of known finding F50 (`hF50`, not used by
+    the proof: the model does not mirror that library error — see `inF50`): the call succeeds,
+    and the file reads back as a well-formed map `r` with the output coverage order and the
+    inputs' `nside_sparse`, kind and sentinel, such that at EVERY pixel `r` holds the value of
+    the unique map valid there and the blank cell where none is; `r`'s valid set is the union
+    of the valid sets; `r` is covered exactly at the output coverage pixels containing a valid
+    pixel of some input -/
+theorem api_cat_union (h : Uniform kind sent so ((m₀, md₀) :: rest)) (hft : m₀.FileTyped)
+    (covordOut : Option Nat) (check or_ : Bool)
+    (hflags : ¬ (or_ = true ∧ check = false)) (hco : covordOut.getD m₀.covord ≤ so)
+    (hdis : ApiCat.Disjoint so ((m₀, md₀) :: rest))
+    (hF50 : ¬ inF50 (filesOf ((m₀, md₀) :: rest)) covordOut) :
+    ∃ F r, apiCat (filesOf ((m₀, md₀) :: rest)) covordOut check or_ = .ok F ∧
+      apiRead F none = .ok r ∧ r.covord = covordOut.getD m₀.covord ∧ r.spord = so ∧
+      r.kind = kind ∧ r.sent = sent ∧ r.WF ∧
+      (∀ p, p < r.npix →
+        (r.abs p = match ((m₀, md₀) :: rest).find? (fun x => x.1.vc.valid (x.1.abs p)) with
+          | some x => x.1.abs p
+          | none => r.vc.sentinel) ∧
+        (r.vc.valid (r.abs p) = true ↔
+          ∃ x ∈ (m₀, md₀) :: rest, x.1.vc.valid (x.1.abs p) = true)) ∧
+      (∀ k, k < r.c.ncov → (covered r.c r.st k = true ↔
+        ∃ x ∈ (m₀, md₀) :: rest, ∃ p, p < r.npix ∧ p >>> r.c.shift = k ∧
+          x.1.vc.valid (x.1.abs p) = true)) := by
+  have _ := hF50
+  obtain ⟨F, hF⟩ := (api_cat_ok_iff h hft covordOut check or_).2 ⟨hflags, hco, fun _ _ => hdis⟩
+  obtain ⟨r, hread, h1, h2, h3, h4, _, _, hwf, habs, hcov⟩ := api_cat_value h hft covordOut check or_ hF
+  refine ⟨F, r, hF, hread, h1, h2, h3, h4, hwf, ?_, hcov⟩
+  intro p hp
+  have hnp : r.npix = 12 * 4 ^ so := by
+    show (cfgOf r.covord r.spord).npix = _
+    rw [h1, h2]; exact WFFiles.cfgOf_npix hco
+  have hvc : r.vc = vcOf kind sent := by unfold MapObj.vc vcOf; rw [h3, h4]
+  have h0 : (m₀, md₀) ∈ (m₀, md₀) :: rest := List.mem_cons_self
+  have hv : r.vc.valid r.vc.sentinel = false := by
+    rw [hvc, ← h.vc_eq h0]; exact (h.ok _ h0).2.1.blankInvalid
+  have hval := habs p hp
+  rw [vals_of_disjoint hdis p (hnp ▸ hp)] at hval
+  cases hfind : ((m₀, md₀) :: rest).find? (fun x => x.1.vc.valid (x.1.abs p)) with
+  | none =>
+    rw [hfind] at hval
+    simp only [List.foldl_nil] at hval
+    refine ⟨hval, ?_⟩
+    rw [hval, hv]
+    constructor
+    · intro hc; cases hc
+    · rintro ⟨x, hx, hxv⟩
+      have := List.find?_eq_none.1 hfind x hx
+      exact absurd hxv this
+  | some x =>
+    rw [hfind] at hval
+    simp only [] at hval
+    rw [List.foldl_cons, List.foldl_nil, stepV_blank _ _ _ hv] at hval
+    refine ⟨hval, ?_⟩
+    have hxm := List.mem_of_find?_eq_some hfind
+    have hxv : x.1.vc.valid (x.1.abs p) = true := by
+      have := List.find?_some hfind
+      exact this
+    rw [hval, hvc, ← h.vc_eq hxm, hxv]
+    exact ⟨fun _ => ⟨x, hxm, hxv⟩, fun _ => rfl⟩
+
+/-- **C18 (API), overlapping inputs WITHOUT `check_overlap`**: the call succeeds and the LAST
+    file (in list order) that is valid at a pixel wins there — within one output coverage
+    pixel the files are written one after the other, each replacing what is there -/
+theorem api_cat_last_wins (h : Uniform kind sent so ((m₀, md₀) :: rest)) (hft : m₀.FileTyped)
+    (covordOut : Option Nat) (hco : covordOut.getD m₀.covord ≤ so) :
+    ∃ F r, apiCat (filesOf ((m₀, md₀) :: rest)) covordOut false false = .ok F ∧
+      apiRead F none = .ok r ∧ r.WF ∧
+      ∀ p, p < r.npix → r.abs p = ((vals ((m₀, md₀) :: rest) p).getLast?).getD r.vc.sentinel := by
+  obtain ⟨F, hF⟩ := (api_cat_ok_iff h hft covordOut false false).2
+    ⟨(fun hc => by cases hc.1), hco, (fun hc => by cases hc)⟩
+  obtain ⟨r, hread, _, _, _, _, _, _, hwf, habs, _⟩ := api_cat_value h hft covordOut false false hF
+  refine ⟨F, r, hF, hread, hwf, fun p hp => ?_⟩
+  rw [habs p hp, foldl_stepV_nocheck]
+
+/-- **C18 (API), `or_overlap`** (with `check_overlap`, integer kinds: integer and boolean
+    plain maps, bit-packed maps, wide masks): the call always succeeds; at every pixel the
+    values of the maps valid there are combined from the left by bitwise or — precisely: a
+    map's value is or-ed into the running value if that reads as valid, and REPLACES it
+    otherwise (the start, and a running or that happens to equal the sentinel) -/
+theorem api_cat_or (h : Uniform kind sent so ((m₀, md₀) :: rest)) (hft : m₀.FileTyped)
+    (covordOut : Option Nat) (hco : covordOut.getD m₀.covord ≤ so)
+    (hint : kind.isIntegerMap = true) :
+    ∃ F r, apiCat (filesOf ((m₀, md₀) :: rest)) covordOut true true = .ok F ∧
+      apiRead F none = .ok r ∧ r.WF ∧
+      ∀ p, p < r.npix → r.abs p =
+        (vals ((m₀, md₀) :: rest) p).foldl
+          (fun acc v => if r.vc.valid acc then Val.or kind.dt v acc else v) r.vc.sentinel := by
+  obtain ⟨F, hF⟩ := (api_cat_ok_iff h hft covordOut true true).2
+    ⟨(fun hc => by cases hc.2), hco, (fun _ ho => by rw [hint] at ho; cases ho)⟩
+  obtain ⟨r, hread, _, _, _, _, _, _, hwf, habs, _⟩ := api_cat_value h hft covordOut true true hF
+  refine ⟨F, r, hF, hread, hwf, fun p hp => ?_⟩
+  rw [habs p hp]
+  rfl
+
+/-- … while on a NON-integer kind (float maps, record maps) `or_overlap` is ignored: the call
+    behaves as with `check_overlap` alone (error iff two maps share a valid pixel) -/
+theorem api_cat_or_ignored (h : Uniform kind sent so ((m₀, md₀) :: rest)) (hft : m₀.FileTyped)
+    (covordOut : Option Nat) (hint : kind.isIntegerMap = false) :
+    apiCat (filesOf ((m₀, md₀) :: rest)) covordOut true true =
+      apiCat (filesOf ((m₀, md₀) :: rest)) covordOut true false := by
+  rw [apiCat_written h hft, apiCat_written h hft, hint]
+  rfl
+
+
+/-- **C18 (API), the result file is well formed and typed** (no uniformity needed; cites
+    `WF.apiCat'`, Lemmas/WFFiles.lean, and `Typed.apiCat`, Lemmas/TypedWorld.lean) -/
+theorem api_cat_wf_typed {ins : Ins} (hok : ∀ x ∈ ins, x.1.Ok) (hty : ∀ x ∈ ins, x.1.Typed)
+    {covordOut : Option Nat} {check or_ : Bool} {F : FileObj}
+    (hF : apiCat (filesOf ins) covordOut check or_ = .ok F) : F.WF ∧ F.Typed := by
+  constructor
+  · apply WF.apiCat' _ hF
+    intro f hf
+    obtain ⟨x, hx, rfl⟩ := List.mem_map.1 hf
+    exact (hok x hx).1.1
+  · apply Typed.apiCat _ hF
+    intro f hf
+    obtain ⟨x, hx, rfl⟩ := List.mem_map.1 hf
+    exact Typed.apiWrite x.2 (hty x hx)
+
+theorem stepArgs_cat (w : World) (a : Args) : stepArgs w "cat" a = opCat w a := by rfl
+
+/-- what a successful `cat` does to the world: the result file is stored under the `f=` name -/
+theorem opCat_eq (w : World) (a : Args) (files : List FileObj) (F : FileObj)
+    (hfiles : (splitList (a.getD "files" "_")).mapM
+      (fun n => (w.files.find? (·.1 == n)).map (·.2)) = some files)
+    (hcat : apiCat files (a.nat? "covord") (a.flag "check") (a.flag "or") = .ok F) :
+    opCat w a = ({ w with files := (a.getD "f" "f", F) :: w.files.filter (·.1 != a.getD "f" "f") },
+      "ok") := by
+  unfold opCat
+  simp only [hfiles, hcat]
+
+/-- **C18 (driver level), `cat` then `read`**: if the stored files named by `files=` are
+    `files`, the concatenation succeeds with `F` and `F` reads as `r`, then both protocol steps
+    answer `ok` and the `r=` name is bound to `r` (owning its storage) -/
+theorem cat_read_world (w : World) (aC aR : Args) (files : List FileObj) (F : FileObj) (r : MapObj)
+    (hfiles : (splitList (aC.getD "files" "_")).mapM
+      (fun n => (w.files.find? (·.1 == n)).map (·.2)) = some files)
+    (hcat : apiCat files (aC.nat? "covord") (aC.flag "check") (aC.flag "or") = .ok F)
+    (hf : aR.getD "f" "f" = aC.getD "f" "f") (hpx : aR.get? "pixels" = none)
+    (hread : apiRead F none = .ok r) :
+    (stepArgs w "cat" aC).2 = "ok" ∧
+    (stepArgs (stepArgs w "cat" aC).1 "read" aR).2 = "ok" ∧
+    (stepArgs (stepArgs w "cat" aC).1 "read" aR).1.get? (aR.getD "r" "tmp")
+      = some { r with view := none } := by
+  rw [stepArgs_cat, opCat_eq w aC files F hfiles hcat]
+  simp only
+  rw [stepArgs_read,
+    opRead_eq _ aR F none r (by rw [hf]; exact files_find_cons_self _ _ _) (Or.inl ⟨hpx, rfl⟩) hread]
+  refine ⟨by first | rfl | trivial, by first | rfl | trivial, ?_⟩
+  exact World.get?_bind_self _ _ _
+
+/-- **C18 (driver level), the union round trip**: `cat f=out files=…` of files written from
+    pairwise disjoint uniform maps, then `read r=R f=out`, binds `R` to the union map -/
+theorem cat_read_world_union (w : World) (aC aR : Args)
+    (h : Uniform kind sent so ((m₀, md₀) :: rest)) (hft : m₀.FileTyped)
+    (hfiles : (splitList (aC.getD "files" "_")).mapM
+      (fun n => (w.files.find? (·.1 == n)).map (·.2)) = some (filesOf ((m₀, md₀) :: rest)))
+    (hflags : ¬ (aC.flag "or" = true ∧ aC.flag "check" = false))
+    (hco : (aC.nat? "covord").getD m₀.covord ≤ so)
+    (hdis : ApiCat.Disjoint so ((m₀, md₀) :: rest))
+    (hF50 : ¬ inF50 (filesOf ((m₀, md₀) :: rest)) (aC.nat? "covord"))
+    (hf : aR.getD "f" "f" = aC.getD "f" "f") (hpx : aR.get? "pixels" = none) :
+    (stepArgs w "cat" aC).2 = "ok" ∧
+    (stepArgs (stepArgs w "cat" aC).1 "read" aR).2 = "ok" ∧
+    ∃ r, (stepArgs (stepArgs w "cat" aC).1 "read" aR).1.get? (aR.getD "r" "tmp") = some r ∧
+      r.covord = (aC.nat? "covord").getD m₀.covord ∧ r.spord = so ∧ r.kind = kind ∧
+      r.sent = sent ∧ r.WF ∧
+      ∀ p, p < r.npix →
+        r.abs p = match ((m₀, md₀) :: rest).find? (fun x => x.1.vc.valid (x.1.abs p)) with
+          | some x => x.1.abs p
+          | none => r.vc.sentinel := by
+  obtain ⟨F, r, hF, hread, h1, h2, h3, h4, hwf, habs, _⟩ :=
+    api_cat_union h hft (aC.nat? "covord") (aC.flag "check") (aC.flag "or") hflags hco hdis hF50
+  obtain ⟨a, b, c⟩ := cat_read_world w aC aR _ F r hfiles hF hf hpx hread
+  exact ⟨a, b, { r with view := none }, c, h1, h2, h3, h4, hwf, fun p hp => (habs p hp).1⟩
+
+
+/-! ### non-vacuity, the carve-out, and what is NOT refused -/
+
+/-- an `int32` map, `nside_sparse = 2` (48 pixels), coverage order `co` (0: 12 blocks of 4;
+    1: 48 blocks of 1) -/
+def exI4 (co : Nat) (sent : Option Val) (pix : List Nat) (vs : List Int) : Except Err MapObj := do
+  let m ← apiMakeEmpty co 1 (.plain (.int 32 true)) sent []
+  apiUpdate m "replace" pix (some (vs.map (Val.num · 0))) false
+
+/-- a two-byte wide mask, coverage order `co`, `nside_sparse = 2` -/
+def exWide (co : Nat) (pix : List Nat) (row : List Nat) : Except Err MapObj := do
+  let m ← apiMakeEmpty co 1 (.wide 2) none []
+  apiUpdate m "replace" pix (some [.bytes row]) true
+
+/-- **the union**: two disjoint `int32` maps with DIFFERENT coverage orders (0 and 1), output
+    coverage order 0 (default = the first file's) and 1, with `check_overlap`: hypotheses of
+    `api_cat_union` hold (`Ok`, `FileTyped`, one kind / sentinel / sparse order, disjoint, not in
+    F50), the file reads back with the inputs' values at pixels 1, 2, 20, 30, blank elsewhere,
+    covered exactly at the output coverage pixels holding a valid pixel (0, 5, 7 of 12; resp.
+    1, 2, 20, 30 of 48) -/
+example : WFApi.okAnd (do
+      let a ← exI4 0 none [1, 2] [5, 6]
+      let b ← exI4 1 none [20, 30] [7, 8]
+      let F ← apiCat (filesOf [(a, []), (b, [("k", "v")])]) none true false
+      let r ← apiRead F none
+      let F1 ← apiCat (filesOf [(a, []), (b, [])]) (some 1) true false
+      let r1 ← apiRead F1 none
+      pure (a, b, F, r, r1))
+    (fun (a, b, _, r, r1) => decide a.Ok && decide b.Ok && decide a.FileTyped &&
+      (a.kind == b.kind) && (a.sent == b.sent) && (a.covord != b.covord) &&
+      decide (ApiCat.Disjoint 1 [(a, []), (b, [])]) &&
+      decide (¬ inF50 (filesOf [(a, []), (b, [])]) none) &&
+      decide r.WF && (r.covord == 0) && (r.spord == 1) && (r.kind == a.kind) &&
+      (r.sent == a.sent) &&
+      ((List.range 48).map r.abs == (List.range 48).map fun p =>
+        if p == 1 then .num 5 0 else if p == 2 then .num 6 0 else if p == 20 then .num 7 0
+        else if p == 30 then .num 8 0 else a.sent) &&
+      (((List.range 12).filter (covered r.c r.st)) == [0, 5, 7]) &&
+      decide r1.WF && (r1.covord == 1) &&
+      ((List.range 48).map r1.abs == (List.range 48).map r.abs) &&
+      (((List.range 48).filter (covered r1.c r1.st)) == [1, 2, 20, 30])) = true := by
+  decide +kernel
+
+/-- **overlapping inputs** (pixel 2 valid in both, 7 and 9): without `check_overlap` the LAST
+    file wins (9, resp. 7 in the other order); with `check_overlap` RuntimeError; with
+    `or_overlap` the bitwise or (15); `or_overlap` without `check_overlap` RuntimeError -/
+example : WFApi.okAnd (do
+      let a ← exI4 0 none [1, 2] [5, 7]
+      let e ← exI4 1 none [2, 3] [9, 11]
+      let r ← (apiCat (filesOf [(a, []), (e, [])]) none false false) >>= (apiRead · none)
+      let r' ← (apiCat (filesOf [(e, []), (a, [])]) none false false) >>= (apiRead · none)
+      let ro ← (apiCat (filesOf [(a, []), (e, [])]) none true true) >>= (apiRead · none)
+      pure (a, e, r, r', ro))
+    (fun (a, e, r, r', ro) => decide a.Ok && decide e.Ok &&
+      decide (¬ ApiCat.Disjoint 1 [(a, []), (e, [])]) &&
+      (vals [(a, []), (e, [])] 2 == [.num 7 0, .num 9 0]) &&
+      (r.abs 2 == .num 9 0) && (r'.abs 2 == .num 7 0) && (ro.abs 2 == .num 15 0) &&
+      (r.abs 1 == .num 5 0) && (r.abs 3 == .num 11 0) && (r'.covord == 1) &&
+      (match apiCat (filesOf [(a, []), (e, [])]) none true false with
+        | .error .runtime => true | _ => false) &&
+      (match apiCat (filesOf [(a, []), (e, [])]) none false true with
+        | .error .runtime => true | _ => false) &&
+      (match apiCat (filesOf [(a, []), (e, [])]) (some 2) false false with
+        | .error .value => true | _ => false) &&
+      (match apiCat [] none false false with | .error .index => true | _ => false)) = true := by
+  decide +kernel
+
+/-- `or_overlap` on a float kind is ignored: overlapping `float64` maps raise as with
+    `check_overlap` alone -/
+example : WFApi.okAnd (do
+      let a ← apiMakeEmpty 0 1 (.plain (.flt 64)) none [] >>= (apiUpdate · "replace" [2] (some [.num 1 1]) false)
+      let b ← apiMakeEmpty 0 1 (.plain (.flt 64)) none [] >>= (apiUpdate · "replace" [2] (some [.num 3 0]) false)
+      pure (a, b))
+    (fun (a, b) => decide a.Ok && decide a.FileTyped && !a.kind.isIntegerMap &&
+      (match apiCat (filesOf [(a, []), (b, [])]) none true true with
+        | .error .runtime => true | _ => false)) = true := by
+  decide +kernel
+
+/-- **known finding F50, evaluated**: two two-byte wide masks with coverage order 1 (one row
+    per block), the first with 2 storage rows, concatenated to the COARSER coverage order 0
+    (4 rows per block): the input is in `inF50`; the MODEL succeeds and returns the union; the
+    LIBRARY raises `ValueError: cannot reshape array of size … into shape (4,2)` (the dtype
+    stub of the first file is read with the output block size) -/
+theorem inF50_model_succeeds : WFApi.okAnd (do
+      let a ← exWide 1 [1] [1, 0]
+      let b ← exWide 1 [20] [0, 2]
+      let r ← (apiCat (filesOf [(a, []), (b, [])]) (some 0) true false) >>= (apiRead · none)
+      pure (a, b, r))
+    (fun (a, b, r) => decide a.Ok && decide b.Ok && decide a.FileTyped &&
+      decide (ApiCat.Disjoint 1 [(a, []), (b, [])]) &&
+      decide (inF50 (filesOf [(a, []), (b, [])]) (some 0)) &&
+      (r.abs 1 == .bytes [1, 0]) && (r.abs 20 == .bytes [0, 2]) && (r.covord == 0)) = true := by
+  decide +kernel
+
+/-- **what is NOT refused**: files of different SENTINELS (default and 7) are concatenated
+    without any error; every file is read with the FIRST file's sentinel, so the unset cells of
+    the second map (holding 7) come out as VALID pixels with value 7 (pixels 21-23 of its
+    block) — as in the library (`sentinel=` of the first header is passed to every partial
+    read).  The union theorem needs `Uniform`. -/
+theorem api_cat_mismatch_accepted : WFApi.okAnd (do
+      let a ← exI4 0 none [1, 2] [5, 6]
+      let b ← exI4 0 (some (.num 7 0)) [20] [9]
+      let r ← (apiCat (filesOf [(a, []), (b, [])]) none true false) >>= (apiRead · none)
+      pure (a, b, r))
+    (fun (a, b, r) => decide a.Ok && decide b.Ok && (a.sent != b.sent) &&
+      (r.sent == a.sent) && (r.abs 20 == .num 9 0) && !b.vc.valid (b.abs 21) &&
+      (r.abs 21 == .num 7 0) && r.vc.valid (r.abs 21)) = true := by
+  decide +kernel
+
+/-! the union round trip through the protocol driver: `cat` then `read` binds `R` to the union -/
+#guard ((runLines [
+    "cfg a kind=plain dtype=i4 covord=0 spord=1",
+    "cfg b kind=plain dtype=i4 covord=1 spord=1",
+    "upd a pix=1,2 vals=5,6",
+    "upd b pix=20,30 vals=7,8",
+    "write a f=A", "write b f=B",
+    "cat files=A,B f=out covord=0 check=1",
+    "read f=out r=R"]).get? "R").map (fun r => (r.covord, [1, 2, 20, 30, 0].map r.abs)) ==
+  some (0, [.num 5 0, .num 6 0, .num 7 0, .num 8 0, .num (-2147483648) 0])
+
+end api
 end C18
 end HS
